@@ -20,6 +20,7 @@ import (
 	"io"
 	"net"
 	"os"
+	"runtime"
 	"strings"
 	"syscall"
 	"time"
@@ -493,8 +494,12 @@ func C17(tier string) *engine.Report {
 	tot.Add(d.Run(), rep)
 	// a second session on the same Stream (this driver attaches the transport directly, never through the handshake)
 	tot.Add(c18ResumedDFS(tier).Run(), rep)
+	// the same two operations in flight on a stream the program holds no reference to, across garbage collections
+	gres := c17GCDFS(tier).Run()
+	tot.Add(gres, rep)
+	rep.Coverage["unreferenced_stream"] = map[string]any{"executions": gres.Executions, "finished": gres.Exhaustive, "violations": len(gres.Violations)}
 	tot.Fill(rep, "all action sequences up to the depth bound over a real Stream + AsyncAdapter + socketpair: start AsyncNextFrame/AsyncNextMessage, AsyncWrite, AsyncClose, peer data/ping/close, poll; read-handler behaviours (start a read, a write, both in either order) are deviations; "+
-		"then the loop is run to quiescence (epoll fd not readable and PollOne idle) and callbacks, consumed frames, the peer's byte stream and Pending() are judged; non-trivial = at least one action; plus, over real TCP, every shape of an earlier session on the same Stream (dropped with unread input, queued replies, a failed write) x blocking/async handshake: the server of the second session receives exactly the first message written, nothing of the earlier one", d.MaxDeviations)
+		"then the loop is run to quiescence (epoll fd not readable and PollOne idle) and callbacks, consumed frames, the peer's byte stream and Pending() are judged; non-trivial = at least one action; plus, over real TCP, every shape of an earlier session on the same Stream (dropped with unread input, queued replies, a failed write) x blocking/async handshake: the server of the second session receives exactly the first message written, nothing of the earlier one; plus a stream the program holds no reference to, with a read and a blocked 48 KB write in flight: {read | write | neither completes first} x re-arming read x read API x start order x 4 x runtime.GC(): operations in flight stay reachable (weak pointers) and complete exactly once", d.MaxDeviations)
 	rep.Coverage["depth"] = map[string]int{"quick": 5, "thorough": 7}[tier]
 	return rep
 }
@@ -502,6 +507,10 @@ func C17(tier string) *engine.Report {
 func C17Replay(v engine.Violation, log func(string)) *engine.Violation {
 	if strings.HasPrefix(v.Config, "resumed-session@") {
 		return c18ResumedDFS(v.Config[16:]).ReplayChoices(v.Choices)
+	}
+	if strings.HasPrefix(v.Config, "unreferenced@") {
+		runtime.GC()
+		return c17GCDFS(v.Config[len("unreferenced@"):]).ReplayChoices(v.Choices)
 	}
 	return c17DFS(v.Config[5:]).ReplayChoices(v.Choices)
 }
